@@ -8,7 +8,7 @@ import sys
 
 from .common import cli_main, concrete_screen
 from .retro_ops import op_configs, run_op
-from .retro_common import fixture_values, FAMILIES
+from .retro_common import fixture_values, FAMILIES, build
 
 PROPERTY = "C18"
 LEVEL = "model_checking"
@@ -27,9 +27,9 @@ BOUNDS = {
 ASSUMPTIONS = [
     "numpy generators are modelled as named streams of fresh unknowns; every draw is logged with its stream and the batchie call site",
     "an unseeded default_rng() is reported at its creation site when at least one draw is taken from it",
-    "the code is otherwise deterministic (no dependence on hash randomisation or iteration order of sets of strings)",
+    "iteration order of sets of strings (it depends on the process's hash salt): sets that the code under test builds by calling set(...) iterate in a harness-chosen order and seven retrospective operations are run under two orders with identically behaving generators; set displays / comprehensions and dict orders are not covered",
 ]
-OUTSIDE = ["bit-level reproducibility of numpy generators across numpy versions", "hash-randomisation effects"]
+OUTSIDE = ["bit-level reproducibility of numpy generators across numpy versions", "hash-randomisation effects other than through set(...) of strings"]
 RULE = "each path is one execution of an entry point with all random draws symbolic; a finding is a draw whose stream is not the given generator."
 BUDGET_S = {"quick": 280, "thorough": 1700}
 TASK_QUOTA = 60
@@ -42,6 +42,8 @@ def configs(tier, seed):
         if c["op"] in ("badfraction", "combofilter"):
             continue
         out.append(dict(c, name="retro " + c["name"], h="retro"))
+    for op, fam, R in (("holdout", "A", 7), ("rholdout", "A", 4), ("perm", "A", 5), ("segr", "B", 5), ("pair", "D", 5), ("fixed", "C", 6), ("cover", "A", 4)):
+        out.append(dict(name="set-order independence: %s %s" % (op, fam), h="setorder", op=op, fam=fam, R=R))
     out += [dict(name="random scorer", h="rand_scorer"), dict(name="dbal sub-sampling", h="dbal"), dict(name="dbal scorer reused", h="dbal_reuse"), dict(name="model object trained twice", h="resample"),
             dict(name="policy + select_next_plate", h="select"), dict(name="seed argument", h="seedarg"),
             dict(name="gibbs sparse_combo", h="gibbs", model="combo"), dict(name="gibbs interaction", h="gibbs", model="inter"),
@@ -283,6 +285,74 @@ def h_resample(ctx, cfg):
     return _judge(ctx, st, "model training (same model object trained twice)")
 
 
+def h_setorder(ctx, cfg):
+    """the result does not depend on the order in which a set of strings happens to iterate (that order changes with the
+    interpreter's hash salt, i.e. from process to process): the operation is run under two iteration orders with
+    identically behaving generators and must give the same screens"""
+    from .. import ordset
+    from .retro_common import row_table
+    np = ctx.np
+    retro = ctx.mod("batchie.retrospective")
+    screen, rows, tags, mask = build(ctx, cfg["fam"], cfg["R"], all_observed=(cfg["op"] == "cover"))
+    patched = []
+    if ctx.mode == "real":  # the real modules resolve `set` through their globals first
+        import sys
+        for name, mod in list(sys.modules.items()):
+            if name.startswith("batchie.") and not hasattr(mod, "set"):
+                mod.set = ordset.OrderSet
+                patched.append(mod)
+
+    def once(g):
+        op = cfg["op"]
+        if op == "holdout":
+            return retro.create_plate_balanced_holdout_set_among_masked_plates(screen, 0.5, g)
+        if op == "rholdout":
+            return retro.create_random_holdout(screen, 0.5, g)
+        if op == "perm":
+            return (retro.PlatePermutationPlateGenerator().generate_plates(screen, g),)
+        if op == "segr":
+            return (retro.SampleSegregatingPermutationPlateGenerator(max_plate_size=2).generate_plates(screen, g),)
+        if op == "pair":
+            return (retro.PairwisePlateGenerator(subset_size=1, anchor_size=0).generate_plates(screen, g),)
+        if op == "fixed":
+            return (retro.FixedSizeSmoother(plate_size=1).smooth_plates(screen, g),)
+        if op == "cover":
+            return (retro.SparseCoverPlateGenerator(reveal_single_treatment_experiments=False).generate_and_unmask_initial_plate(screen, g),)
+        raise ValueError(op)
+    try:
+        with _Streams(ctx) as st:
+            ordset.ORDER[0] = "asc"
+            g1 = ctx.rng("R")
+            try:
+                first = once(g1)
+            except ValueError:
+                return "refused"
+            ordset.ORDER[0] = "desc"
+            second = once(ctx.replay_rng(g1, "Rtwin"))
+    finally:
+        ordset.ORDER[0] = "asc"
+        for mod in patched:
+            del mod.set
+    same = len(first) == len(second)
+    for a, b in zip(first, second):
+        ta, tb = row_table(a), row_table(b)
+        for f in ("sn", "tn", "td", "pn", "mask"):
+            same = same and ta[f] == tb[f]
+        same = ctx.And(same, all_eq_list(ctx, ta["obs"], tb["obs"]))
+    ctx.prove(same, "the result does not depend on the iteration order of a set of strings (hash salt of the process)",
+              key="result depends on set iteration order")
+    return _judge(ctx, st, "retrospective preparation (%s, two set orders)" % cfg["op"])
+
+
+def all_eq_list(ctx, a, b):
+    if len(a) != len(b):
+        return False
+    r = True
+    for x, y in zip(a, b):
+        r = ctx.And(r, ctx.eq(x, y))
+    return r
+
+
 def h_select(ctx, cfg):
     sm = ctx.mod("batchie.scoring.main")
     kp = ctx.mod("batchie.policies.k_per_sample")
@@ -461,5 +531,5 @@ def h_cli_train(ctx, cfg):
 
 def run(ctx, cfg):
     return {"retro": h_retro, "rand_scorer": h_rand_scorer, "dbal": h_dbal, "select": h_select, "seedarg": h_seedarg,
-            "gibbs": h_gibbs, "mvn": h_mvn, "dbal_reuse": h_dbal_reuse, "resample": h_resample, "cli_scores": h_cli_scores, "cli_select": h_cli_select,
+            "gibbs": h_gibbs, "mvn": h_mvn, "dbal_reuse": h_dbal_reuse, "resample": h_resample, "setorder": h_setorder, "cli_scores": h_cli_scores, "cli_select": h_cli_select,
             "cli_prepare": h_cli_prepare, "cli_train": h_cli_train}[cfg["h"]](ctx, cfg)
